@@ -780,7 +780,9 @@ class DIMSEMessage:
             # These message types *may* have a dataset
             dataset_keyword = _DATASET_KEYWORDS[self.__class__.__name__]
             self.data_set = getattr(primitive, dataset_keyword)
-            if self.data_set:
+            # An empty stream is "no data set": `encode_msg()` sends no
+            #   data set fragments for it
+            if self.data_set is not None and self.data_set.getvalue():
                 self.command_set.CommandDataSetType = 0x0001
         except KeyError:
             # The following message types never have a dataset
